@@ -67,6 +67,13 @@ def run(ck):
         if method == 'fixed_vector':
             fv = np.zeros(d, dtype=np.float32); fv[1 + (i // 9) % (d - 1)] = 1.0      # a coordinate with ~33 distinct values
             kwm['fixed_vector'] = torch.tensor(fv)
+        # a split direction that is CONSTANT on the training rows (the axis of an intercept column): no split can be made, the tree is a single leaf — and a single leaf keeps
+        # all its samples (rows stay pairwise distinct)
+        const_dir = (i % 14 == 6)
+        if const_dir:
+            method = 'fixed_vector'; X = xr.make_X('random', n, d, rng); X[:, 0] = 1.0
+            fv = np.zeros(d, dtype=np.float32); fv[0] = 1.0; kwm = dict(fixed_vector=torch.tensor(fv)); tree_iters = 0
+            refill = int(rng.choice([15, 40, 1500])); nv = int(rng.choice([0, 3, 10]))
         y = xr.make_y(task, X, rng)
         many_classes = (i % 10 in (2, 5, 8))
         if many_classes:
@@ -78,7 +85,7 @@ def run(ck):
             yv = rng.integers(0, Kc, size=nv).astype(np.int64)
         if nv == 0:
             Xv = Xv[:0]
-        desc = dict(i=i, task=task, n=n, L=L, d=d, refill=refill, nval=nv, f=f, method=method, tree_iters=tree_iters, tied_projections=tied, agop_budget=(7 if i % 5 == 2 else None), n_trees=(3 if (i % 4 == 1 and not tree_iters) else 1), seed=ck.seed)
+        desc = dict(i=i, task=task, n=n, L=L, d=d, refill=refill, nval=nv, f=f, method=method, tree_iters=tree_iters, tied_projections=tied, constant_direction=const_dir, agop_budget=(7 if i % 5 == 2 else None), n_trees=(3 if (i % 4 == 1 and not tree_iters) else 1), seed=ck.seed)
         # proviso of the property: every leaf must end up with a non-empty validation set.
         xr.seed_all(7000 + i + ck.seed)
         leaf_params = xr.default_rfm_params(iters=(1 if (tree_iters or i % 5 == 2) else 0), reg=1e-2)
